@@ -209,4 +209,4 @@ def check_case(case):
 
 def run(tier="quick", seed=0):
     return common.run("bounded.C11", cases(tier, seed), bound="<=3 ballots from 12 contents, all permutations (quick); <=4 (thorough)",
-                      rule=RULE, budget_s=150 if tier == "quick" else 1200)
+                      rule=RULE, budget_s=600 if tier == "quick" else 1200)
